@@ -730,6 +730,7 @@ func runScenario(sc *scenario) *runResult {
 		}()
 	}
 	dirDone := make(chan struct{})
+	abort := make(chan struct{}) // closed by the director when something it waits for never happens
 	if len(sc.Life) == 0 {
 		for _, sub := range sc.Subs {
 			launch(sub)
@@ -762,6 +763,7 @@ func runScenario(sc *scenario) *runResult {
 		})
 		go func() {
 			defer close(dirDone)
+		life:
 			for _, op := range sc.Life {
 				switch op.Op {
 				case "sub":
@@ -789,8 +791,19 @@ func runScenario(sc *scenario) *runResult {
 				case "sleep":
 					sleepUs(op.N)
 				case "quiet":
-					wg.Wait()
-					fnWg.Wait()
+					fin := make(chan struct{})
+					go func() {
+						wg.Wait()
+						fnWg.Wait()
+						close(fin)
+					}()
+					select {
+					case <-fin:
+					case <-time.After(20 * time.Second):
+						// something submitted never returned / never ran: the rest of the script is pointless
+						close(abort)
+						break life
+					}
 					settle := "ok"
 					if err := waitParked(15*time.Second, int(launched.Load())); err != nil {
 						settle = strings.ReplaceAll(err.Error(), " ", "_")
@@ -801,6 +814,9 @@ func runScenario(sc *scenario) *runResult {
 						ms = append(ms, strconv.Itoa(int(m.VerifMicroTaskCnt())))
 					}
 					rec.hs("quiet", -1, int64(c), strings.Join(ms, ",")+" settle="+settle)
+					if settle != "ok" {
+						break life // the counters are off for good: what follows would only repeat it (slowly)
+					}
 				case "shutdown":
 					rec.h("shutdown-call", -1, 0)
 					_ = modules.Shutdown()
@@ -847,6 +863,9 @@ func runScenario(sc *scenario) *runResult {
 	case <-allDone:
 		res.settle = waitParked(15*time.Second, wantToks)
 		res.parkedMs = parkedNoToken.Milliseconds()
+	case <-abort:
+		res.hang = true
+		res.settle = errors.New("hang")
 	case <-time.After(hangAfter):
 		// some call never returned (e.g. nothing is admitted any more): report, the process state is lost
 		res.hang = true
@@ -1237,7 +1256,7 @@ func monitor(c hxlib.Case, outs []string) []hxlib.Violation {
 			return []hxlib.Violation{{Sig: sigCrash, What: "the process running the scenario died: " + strings.Join(f[4:], " "), Lines: c.Lines}}
 		}
 		if f[1] == "hang" {
-			return []hxlib.Violation{{Sig: sigHang, What: "20 s after submission not all microtask calls had returned (max delays of one hour: nothing was admitted any more)", Lines: c.Lines}}
+			return []hxlib.Violation{{Sig: sigHang, What: "long after submission (20 s; lifecycle scenarios: 20 s at a quiescence point / 60 s overall) not every submitted microtask had been executed and had returned (max delays of one hour: nothing was admitted any more, or a function was never run)", Lines: c.Lines}}
 		}
 		if f[1] == "final" {
 			cnt, _ := strconv.ParseInt(f[2], 10, 64)
@@ -1403,6 +1422,9 @@ func monitor(c hxlib.Case, outs []string) []hxlib.Violation {
 		want := 1
 		if t.Mod < 0 {
 			want = 0
+		}
+		if !called[i] {
+			continue // never submitted (a lifecycle script that was cut short): nothing to judge
 		}
 		if execs[i] != want {
 			add(sigOnce, fmt.Sprintf("task %d (%+v) was executed %d times, expected %d", i, t, execs[i], want))
@@ -1850,17 +1872,29 @@ func gen(r *hxlib.Run, emit func(hxlib.Case)) {
 		return
 	}
 	stop := false
+	lifeBroken := false
 	emitScn := func(sc *scenario) {
 		if stop {
 			return
 		}
 		var lines []string
+		if len(sc.Life) > 0 && lifeBroken {
+			return // an earlier lifecycle scenario hung or did not settle: each further one would take as long to say the same
+		}
 		if sc.Class == "shutdown" || sc.Class == "nilstart" || len(sc.Life) > 0 {
 			var err error
 			lines, err = runInChild(sc)
 			if err != nil {
 				b, _ := json.Marshal(sc)
 				lines = []string{"scn " + string(b), "h crash -1 0 " + strings.ReplaceAll(err.Error(), " ", "_")}
+			}
+			if len(sc.Life) > 0 {
+				for _, l := range lines {
+					if strings.HasPrefix(l, "h hang") || strings.HasPrefix(l, "h crash") ||
+						((strings.HasPrefix(l, "h quiet") || strings.HasPrefix(l, "h final")) && strings.Contains(l, "settle=") && !strings.Contains(l, "settle=ok")) {
+						lifeBroken = true
+					}
+				}
 			}
 		} else {
 			res := runScenario(sc)
